@@ -54,6 +54,7 @@ pub fn judge_nocover<T: Viewed>(r: Result<T, Rec>, ex: &Expect, p: &Path) {
             // the same law on the log of *every* call made (a report made after a stop and then dropped is invisible in the returned error)
             oblige!(stop_then_handover(&rec::global()), "C01,C03:no_report_is_made_after_a_stop");
             oblige!(all_under(&e, p), "C04:every_event_under_the_given_location");
+            oblige!(handovers_at_or_above_previous(&rec::global()), "C04:every_hand_over_is_at_or_above_what_it_hands_over");
             oblige!(agree_on(&e, &ex.log, |x| x.kind() == K_HANDOVER || x.kind() == K_UNEXPECTED || x.kind() == K_KIND), "C04:locations_and_actual_values");
             oblige!(agree_on(&e, &ex.log, is_missing_ev), "C04,C07,C08:missing_reports");
             oblige!(agree_on(&e, &ex.log, is_unknown_key_ev), "C04,C07,C09:unknown_key_reports");
